@@ -65,4 +65,47 @@ def exWrites : List (Int × TFld) :=
    (-1, { exFloat with data := { shape := [3, 1], buf := .floats [.negZero, .inf true, .fin 9] } }),
    (1, { exFloat with data := { shape := [3, 1], buf := .ints [4, 5, 6] } })]
 
+/-! round 2: a candidate subregion accepted only thanks to its own tolerance factor (nm regime:
+region (0)–(10 nm) in 10 cells, candidate (0)–(0.9995 nm) with `tolerance_factor=1e-2`) -/
+
+def exTolRegion : TReg :=
+  { pmin := .floats [0], pmax := .floats [1/100000000], dims := ["x"], units := ["m"], tol := TReg.defaultTol }
+
+def exTolCand : TReg :=
+  { pmin := .floats [0], pmax := .floats [1999/2000000000000], dims := ["x"], units := ["m"], tol := .float (1/100) }
+
+/-- the mesh `Mesh(region=exTolRegion, n=10, subregions={"a": exTolCand})` returned BEFORE repo fix
+5591fed0 (now the constructor refuses): the subregion re-stamped with the mesh's tolerance factor -/
+def exTolMesh : TMesh :=
+  { region := exTolRegion, n := [10], bc := "", subs := [("a", { exTolCand with tol := TReg.defaultTol })] }
+
+def exTolField : TFld :=
+  { mesh := exTolMesh, nvdim := 1, data := { shape := [10, 1], buf := .floats (List.replicate 10 (.fin 1)) },
+    valid := { shape := [10], buf := List.replicate 10 true }, vdims := none, vmap := [], unit := none }
+
+/-- the same region carrying `tolerance_factor=1e-2` itself -/
+def exTolRegionLoose : TReg := { exTolRegion with tol := .float (1/100) }
+
+/-- `Mesh(region=exTolRegionLoose, n=10, subregions={"a": exTolCand})` -/
+def exTolMeshLoose : TMesh :=
+  { region := exTolRegionLoose, n := [10], bc := "", subs := [("a", { exTolCand with tol := .float (1/100) })] }
+
+def exTolFieldLoose : TFld := { exTolField with mesh := exTolMeshLoose }
+
+/-- a legacy file whose array is a mesh-shaped scalar array (no component axis) -/
+def exLegacyScalar : Legacy :=
+  { p1 := .ints [0, 0], p2 := .ints [2, 1], n := [2, 1], dim := 1,
+    array := { shape := [2, 1], buf := .ints [7, -3] }, sidecar := none }
+
+/-- a legacy file whose array has to be broadcast along the first axis -/
+def exLegacyBcast : Legacy :=
+  { exLegacy with array := { shape := [1, 1, 3], buf := .floats [.fin 1, .negZero, .nan true 5] } }
+
+/-- a legacy file (nm regime) whose side-car box is accepted only within the tolerances -/
+def exLegacyTolSide : Legacy :=
+  { p1 := .floats [0], p2 := .floats [1/100000000], n := [10], dim := 1,
+    array := { shape := [10, 1], buf := .floats (List.replicate 10 (.fin 1)) },
+    sidecar := some [("a", { pmin := .floats [0], pmax := .floats [1999/2000000000000], dims := ["x"], units := ["m"], ndim := 1,
+                             tol := .float (1/100) })] }
+
 end DFV.C10
